@@ -191,7 +191,7 @@ def r4_invalid(ctx, prog):
 
 
 def r5_batching(ctx, prog):
-    r = ctx.rule('C19.R5', 'batching primitives: bounded store, zero-sized request is a no-op, as many handles discarded as returned', floor=4, engine='E1+E3+E8')
+    r = ctx.rule('C19.R5', 'batching primitives: bounded store, zero-sized request is a no-op, as many handles discarded as returned', floor=5, engine='E1+E3+E8')
     f = prog.fn('FindOperation::retrieveHandles')
     ctx.analysed(f)
     ph, cnt = param_name(f, 0), param_name(f, 1)
@@ -249,6 +249,19 @@ def r5_batching(ctx, prog):
     site = 'C_FindObjects returns and discards the same handles'
     (r.violation(h['qname'], site, 'a successful path ' + bad[0], file=h['file'], line=bad[1]['line'], path=bad[1]['path']) if bad else r.ok(h['qname'], site, '%d paths' % len(o.outcomes), file=h['file'], line=h['line']))
 
+    # C_FindObjects discards what it returned with eraseHandles (above): the retrieving side must then leave the result set alone, or every call drops further matches unseen
+    MUT = {'erase', 'clear', 'insert', 'swap', 'operator=', 'emplace', 'extract', 'merge'}
+    muts = [n for n in walk(f['body']) if (n.get('k') == 'Call' and short(n.get('callee')) in MUT and n.get('recv') is not None and n['recv'].get('k') == 'Member' and n['recv'].get('field') == '_handles')
+            or (n.get('k') == 'Assign' and n['a'].get('k') == 'Member' and n['a'].get('field') == '_handles')]
+    own = [c for c in calls(f['body']) if c.get('own') and not c.get('const') and '_handles' in Interp(f, prog).this_modset(c['callee'])]
+    site = 'retrieveHandles only reads the result set'
+    if muts or own:
+        n0 = (muts or own)[0]
+        r.violation(f['qname'], site, 'retrieveHandles itself removes handles from the result set (line %s) and C_FindObjects then discards the same number again with eraseHandles: every C_FindObjects call loses as many further matches as it returned' % n0['l'],
+                    file=f['file'], line=n0['l'])
+    else:
+        r.ok(f['qname'], site, 'no mutating operation on _handles', file=f['file'], line=f['line'])
+
 
 def run(ctx):
     prog = ctx.prog('ossl-file')
@@ -257,6 +270,9 @@ def run(ctx):
     r3_matching(ctx, prog)
     r4_invalid(ctx, prog)
     r5_batching(ctx, prog)
+    # which session objects a search can see depends on the (slot, session) they were booked under and on the session whose close removes them
+    from rules import c11
+    c11.r6_store_key(ctx, prog, rule_id='C19.R6')
 
 
 MUTANTS = [
